@@ -1,9 +1,254 @@
 import Pandora.Drv.Util
+import Pandora.Spec.C02
+import Pandora.Model.C02Conc
 
 namespace Pandora.Drv.C02
-open Pandora.Drv
+open Pandora.Drv Pandora.Model.C02 Pandora.Spec.C02
 
-/-- stub: replaced when the property's model driver is written -/
-def handle : Handler := fun _ _ => ("-", "skip:not-built")
+/-! tree syntax:  F<dur>[o1,o2,…]{ctor}   U<dur>   C(t;t;…)   C()  -/
+
+def takeInt (cs : List Char) : Option (Int × List Char) :=
+  let (neg, cs) := match cs with | '-' :: r => (true, r) | _ => (false, cs)
+  let ds := cs.takeWhile Char.isDigit
+  if ds.isEmpty then none else
+  let n : Nat := ds.foldl (fun a c => a * 10 + (c.toNat - '0'.toNat)) 0
+  some (if neg then -(n : Int) else (n : Int), cs.drop ds.length)
+
+def takeInts : Nat → List Char → List Int → Option (List Int × List Char)
+  | 0, _, _ => none
+  | fuel + 1, cs, acc =>
+    match cs with
+    | ']' :: r => some (acc.reverse, r)
+    | ',' :: r => takeInts fuel r acc
+    | _ => match takeInt cs with
+      | some (v, r) => takeInts fuel r (v :: acc)
+      | none => none
+
+def skipBraces : List Char → List Char
+  | '{' :: r => (r.dropWhile (· != '}')).drop 1
+  | cs => cs
+
+mutual
+def parseTree : Nat → List Char → Option (Tree × List Char)
+  | 0, _ => none
+  | fuel + 1, cs =>
+    match cs with
+    | 'F' :: r => do
+        let (dur, r) ← takeInt r
+        match r with
+        | '[' :: r =>
+            let (offs, r) ← takeInts (r.length + 1) r []
+            pure (Tree.fin offs dur, skipBraces r)
+        | _ => none
+    | 'U' :: r => do
+        let (dur, r) ← takeInt r
+        pure (Tree.unl dur, skipBraces r)
+    | 'C' :: '(' :: r => do
+        let (kids, r) ← parseKids fuel r []
+        pure (Tree.comp kids, r)
+    | _ => none
+def parseKids : Nat → List Char → List Tree → Option (List Tree × List Char)
+  | 0, _, _ => none
+  | fuel + 1, cs, acc =>
+    match cs with
+    | ')' :: r => some (acc.reverse, r)
+    | ';' :: r => parseKids fuel r acc
+    | _ => match parseTree fuel cs with
+      | some (t, r) => parseKids fuel r (t :: acc)
+      | none => none
+end
+
+def fmtT (now tx : Int) : String := if tx == now then "NOW" else toString tx
+
+/-- run an op string ("S","N","L") sequence on the concrete model -/
+def runModel (d : Nat) (now : Int) : Lvl d → List String → List String → String
+  | _, [], acc => ";".intercalate acc.reverse
+  | s, op :: ops, acc =>
+    let o := lvlOps d
+    match op with
+    | "S" => match o.start s 0 with
+        | .ok s' => runModel d now s' ops ("S" :: acc)
+        | .error e => ";".intercalate (("P:" ++ e) :: acc).reverse
+    | "N" => match o.next s now with
+        | .ok (s', tx, ok) => runModel d now s' ops (s!"N:{fmtT now tx}:{if ok then 1 else 0}" :: acc)
+        | .error e => ";".intercalate (("P:" ++ e) :: acc).reverse
+    | "L" => match o.left s now with
+        | .ok (s', l) => runModel d now s' ops (s!"L:{l}" :: acc)
+        | .error e => ";".intercalate (("P:" ++ e) :: acc).reverse
+    | _ => "bad-op"
+
+/-- the same ops on the abstract spec -/
+def runSpec (now : Int) : List Leaf → List String → List String → String
+  | _, [], acc => ";".intercalate acc.reverse
+  | ps, op :: ops, acc =>
+    match op with
+    | "S" => match specStart ps 0 with
+        | .ok ps' => runSpec now ps' ops ("S" :: acc)
+        | .error e => ";".intercalate (("P:" ++ e) :: acc).reverse
+    | "N" => match specNext ps now with
+        | .ok (ps', tx, ok) => runSpec now ps' ops (s!"N:{fmtT now tx}:{if ok then 1 else 0}" :: acc)
+        | .error e => ";".intercalate (("P:" ++ e) :: acc).reverse
+    | "L" => runSpec now ps ops (s!"L:{specLeft ps now}" :: acc)
+    | _ => "bad-op"
+
+/-- first differing op between two ';' lists, as a failure key -/
+def firstDiff (a b : List String) (i : Nat := 0) : String :=
+  match a, b with
+  | [], [] => "none"
+  | x :: xs, y :: ys => if x == y then firstDiff xs ys (i + 1) else
+      let kind := if y.startsWith "L" then "left" else if y.startsWith "P" || x.startsWith "P" then "panic" else "next"
+      s!"{kind}:op{i} impl={x} spec={y}"
+  | x :: _, [] => s!"next:op{i} impl={x} spec=<none>"
+  | [], y :: _ => s!"next:op{i} impl=<none> spec={y}"
+
+def handleSeq (kv : List (String × String)) (impl : String) : String × String :=
+  let treeS := getS kv "tree"
+  let now := (getI? kv "now").getD 0
+  let ops := splitList (getS kv "ops")
+  match parseTree (treeS.length + 1) treeS.toList with
+  | some (t, []) =>
+    let d := t.depth
+    match build now d t with
+    | .error e => ("P:" ++ e, if impl == "P:" ++ e then "ok" else s!"fail:panic:build impl={impl.take 60}")
+    | .ok s =>
+      let m := runModel d now s ops []
+      let sp := runSpec now (flatten t) ops []
+      let verdict := if impl == sp then "ok" else s!"fail:{firstDiff (impl.splitOn ";") (sp.splitOn ";")}"
+      (m, verdict)
+  | _ => ("-", "fail:driver:unparsable tree")
+
+/-! ### mode=conc -/
+open Pandora.Model.C02.Conc in
+def fmtRet (now : Int) : Nat × Ret → String
+  | (i, .tok tx ok) => s!"{i}:N:{fmtT now tx}:{if ok then 1 else 0}"
+  | (i, .cnt n) => s!"{i}:L:{n}"
+  | (i, .panic m) => s!"{i}:P:{m}"
+  | (i, .parked) => s!"{i}:K"
+
+def treeLeaves : Tree → Option (List Leaf)
+  | .comp cs => cs.mapM fun
+      | .fin offs dur => some (Leaf.fin offs dur 0 none)
+      | .unl dur => some (Leaf.unl dur none)
+      | .comp _ => none
+  | _ => none
+
+/-- all finite tokens of the flat spec in order, and the finish time if the profile is finite -/
+def specDrain : Nat → List Leaf → Int → List Int → List Int × Option Int
+  | 0, _, _, acc => (acc.reverse, none)
+  | fuel + 1, ps, now, acc =>
+    match specNext ps now with
+    | .ok (ps', tx, true) => if tx == now then (acc.reverse, none) else specDrain fuel ps' now (tx :: acc)
+    | .ok (_, tx, false) => (acc.reverse, some tx)
+    | .error _ => (acc.reverse, none)
+
+def insertSorted (x : Int) : List Int → List Int
+  | [] => [x]
+  | y :: ys => if x ≤ y then x :: y :: ys else y :: insertSorted x ys
+def sortInts (l : List Int) : List Int := l.foldr insertSorted []
+
+structure Ev where
+  tid : Nat
+  kind : String     -- N L P K
+  tx : Option Int   -- none = NOW
+  ok : Bool
+  n : Int
+
+def parseEv (s : String) : Option Ev :=
+  match s.splitOn ":" with
+  | [t, "K"] => do pure ⟨← t.toNat?, "K", none, false, 0⟩
+  | [t, "N", tx, ok] => do pure ⟨← t.toNat?, "N", if tx == "NOW" then none else tx.toInt?, ok == "1", 0⟩
+  | [t, "L", n] => do pure ⟨← t.toNat?, "L", none, false, ← n.toInt?⟩
+  | t :: "P" :: _ => do pure ⟨← t.toNat?, "P", none, false, 0⟩
+  | _ => none
+
+/-- Spec verdict on a global event log of a concurrent run (all callers ran to completion). -/
+def judgeConc (flat : List Leaf) (now : Int) (nCalls : Nat) (evs : List Ev) : String :=
+  let started := match specStart flat 0 with | .ok p => p | .error _ => flat
+  let (E, fin) := specDrain (nCalls + 10000) started now []
+  let oks := evs.filter (fun e => e.kind == "N" && e.ok)
+  let finiteOks := oks.filterMap (·.tx)
+  if evs.any (·.kind == "P") then "fail:panic:a call panicked"
+  else if sortInts finiteOks != (sortInts E).take finiteOks.length then
+    s!"fail:exactly-once:handed out {sortInts finiteOks} expected prefix of {E}"
+  else if fin.isSome && oks.length != min nCalls E.length then
+    s!"fail:exactly-once:{oks.length} tokens handed out by {nCalls} Next calls, profile has {E.length}"
+  else if fin.isNone && finiteOks.length < min nCalls E.length then
+    s!"fail:exactly-once:{finiteOks.length} finite tokens handed out, expected {min nCalls E.length}"
+  else
+    -- per caller: times never decrease
+    let tids := (evs.map (·.tid)).eraseDups
+    let badMono := tids.any fun t =>
+      let ts := (evs.filter (fun e => e.tid == t && e.kind == "N")).map (fun e => e.tx.getD now)
+      (ts.zip ts.tail).any (fun (a, b) => b < a)
+    if badMono then "fail:order:times returned to one caller decrease"
+    else
+      -- exhausted: every !ok carries the finish time
+      let badFin := match fin with
+        | some f => evs.any (fun e => e.kind == "N" && !e.ok && e.tx != some f)
+        | none => false
+      if badFin then s!"fail:finish:a finished Next returned a time other than {fin}"
+      else
+        -- Left: exact for some state between call and return
+        -- spec states after k finite draws, k = 0 … |E|
+        let states : List (List Leaf) := (List.range (E.length + 1)).map fun k =>
+          (List.range k).foldl (fun ps _ => match specNext ps now with | .ok (ps', _, _) => ps' | .error _ => ps) started
+        let rec go (es : List Ev) (drawn : Nat) (callStart : List (Nat × Nat)) : Option String :=
+          match es with
+          | [] => none
+          | e :: rest =>
+            let atCall := ((callStart.find? (·.1 == e.tid)).map (·.2)).getD drawn
+            match e.kind with
+            | "K" => go rest drawn (if callStart.any (·.1 == e.tid) then callStart else (e.tid, drawn) :: callStart)
+            | "N" => go rest (if e.ok && e.tx.isSome then drawn + 1 else drawn) (callStart.filter (·.1 != e.tid))
+            | "L" =>
+              let cs' := callStart.filter (·.1 != e.tid)
+              -- acceptable iff it is the spec's value in some state between the call and the return
+              let okL := (List.range (drawn - atCall + 1)).any fun j =>
+                match states[atCall + j]? with
+                | some ps => specLeft ps now == e.n
+                | none => false
+              if okL then go rest drawn cs'
+              else some s!"fail:left:Left={e.n} is not the exact count (or -1 for unknown) of any state between call ({atCall} drawn) and return ({drawn} drawn)"
+            | _ => go rest drawn callStart
+        match go evs 0 [] with
+        | some f => f
+        | none => "ok"
+
+open Pandora.Model.C02.Conc in
+def handleConc (kv : List (String × String)) (impl : String) : String × String :=
+  let treeS := getS kv "tree"
+  let now := (getI? kv "now").getD 0
+  let progs : List (List Op) := (splitList (getS kv "prog") "|").map fun p =>
+    p.toList.filterMap fun c => if c == 'N' then some Op.next else if c == 'L' then some Op.left else none
+  match parseTree (treeS.length + 1) treeS.toList, parseNats (getS kv "sched") with
+  | some (t, []), some sched =>
+    match treeLeaves t with
+    | some leaves =>
+      match newComposite leafOps now leaves with
+      | .ok (.inr c) =>
+        match compStart leafOps c 0 with
+        | .ok c =>
+          let st : St := { cs := c.cs, la := c.la, started := c.started,
+                           thr := progs.map (fun p => { todo := p }), log := [] }
+          let st := run now st sched
+          let nOps := progs.foldl (fun a p => a + p.length) 0
+          let st := drain now (2 * nOps + 2 * leaves.length * progs.length + 10) st
+          let m := ";".intercalate (st.log.reverse.map (fmtRet now))
+          let nCalls := progs.foldl (fun a p => a + (p.filter (· == Op.next)).length) 0
+          let verdict := match (splitList impl ";").mapM parseEv with
+            | some evs => judgeConc (flatten t) now nCalls evs
+            | none => s!"fail:crash:unparsable log {impl.take 60}"
+          (m, verdict)
+        | .error e => ("P:" ++ e, "fail:panic:start")
+      | _ => ("-", "skip:not-a-composite")
+    | none => ("-", "skip:nested")
+  | _, _ => ("-", "fail:driver:unparsable conc input")
+
+def handle : Handler := fun input impl =>
+  let kv := parseKV input
+  match getS kv "mode" "seq" with
+  | "seq" => handleSeq kv impl
+  | "conc" => handleConc kv impl
+  | _ => ("-", "skip:mode")
 
 end Pandora.Drv.C02
